@@ -740,6 +740,8 @@ func TestVerif_C11_alt(t *testing.T) {
 		if err != nil {
 			h0, p0 = host, map[string]string{"http": "80", "https": "443"}[scheme]
 		}
+		// AltSvc.Host as altsvcutil.ParseHeader produces it: an IPv6 literal WITHOUT its brackets
+		h0 = strings.TrimSuffix(strings.TrimPrefix(h0, "["), "]")
 		as := &altsvc.AltSvc{Protocol: "h2"}
 		switch r.Intn(5) {
 		case 0:
@@ -768,13 +770,50 @@ func TestVerif_C11_alt(t *testing.T) {
 		}
 		ok := out != u && *u == before
 		changed := out.Host != host
+		// the code before fixes/C11-3, verbatim: a port-less bracketed literal kept its brackets as "host"
+		class := ""
+		if legacy := c11ConvertHostCopy(as, scheme, host, false); out.Host == legacy && legacy != c11ConvertHostCopy(as, scheme, host, true) {
+			class = "altsvc-ipv6-portless-origin"
+			s.Count("legacy-portless-ipv6-origin")
+			if strings.HasPrefix(legacy, "[[") {
+				s.Count("legacy-double-bracket")
+			}
+		}
 		if changed {
 			s.Count("converted")
 		} else {
 			s.Count("kept")
 		}
 		s.Case("c11alt "+c11EncScheme(scheme)+" "+verifh.Hex(host)+" "+verifh.Hex(as.Host)+" "+verifh.Hex(as.Port),
-			verifh.Hex(out.Host), ok, "", changed, scheme+"://"+host+" + alt-svc "+as.Host+":"+as.Port+" -> "+out.Host)
+			verifh.Hex(out.Host), ok, class, changed, scheme+"://"+host+" + alt-svc "+as.Host+":"+as.Port+" -> "+out.Host)
 	}
 	s.FinishRequire("converted", "kept")
+}
+
+// c11ConvertHostCopy: altsvcutil.ConvertURL over netutil.AuthorityHostPort as they were before
+// (fixed=false) and are after (fixed=true) fixes/C11-3. Used ONLY to recognise exactly the known
+// pre-fix behaviour on the inputs where the two differ (port-less bracketed origin); never as an oracle.
+func c11ConvertHostCopy(a *altsvc.AltSvc, scheme, authority string, fixed bool) string {
+	host, port, err := net.SplitHostPort(authority)
+	if err != nil {
+		port = "443"
+		if scheme == "http" {
+			port = "80"
+		}
+		host = authority
+		if fixed && strings.HasPrefix(host, "[") && strings.HasSuffix(host, "]") {
+			host = host[1 : len(host)-1]
+		}
+	}
+	modify := false
+	if a.Host != "" && a.Host != host {
+		host, modify = a.Host, true
+	}
+	if a.Port != "" && a.Port != port {
+		port, modify = a.Port, true
+	}
+	if modify {
+		return net.JoinHostPort(host, port)
+	}
+	return authority
 }
